@@ -297,7 +297,7 @@ def run(ctx):
         ctx.ob("R14.3", key, r.ok, r.msg, fn.where(r.line))
     SC = "cairo_lang_starknet_classes::"
     vbc = F.find1(SC + "felt252_serde::vec_with_bounded_capacity")
-    g("vec_with_bounded_capacity:remaining<size", vbc, Cmp("lt", "a:max_remaining_size", "a:size"), rel="lt",
+    g("vec_with_bounded_capacity:remaining<size", vbc, Cmp("lt", "arg:2", "arg:1"), rel="lt",
       err=("Felt252SerdeError", "InvalidInputForDeserialization"),
       protects=[c.bb for c in vbc.calls() if c.name() == "with_capacity"])
     # every caller passes the remaining input length as the bound
